@@ -1689,6 +1689,57 @@ def h_bulk_result(ctx, p):
     ctx.req('ONCE', n <= 1, nm, 'the source must be turned into an iterator at most once (single forward pass)', p)
 
 
+# ------------------------------------------------------------------------------ len / is_empty / capacity / constructors
+def h_len(ctx, p):
+    ctx.classes['observed'] += 1
+    v = p.val
+    ctx.req('FLOW', v[0] == 'int' and p.ms is not None and p.z.entails_eq(v[1], p.ms.len0) and p.untouched(), ctx.body.name,
+            'len() must report the number of live entries (the len field) and change nothing', p)
+
+
+def h_capacity(ctx, p):
+    ctx.classes['observed'] += 1
+    v = p.val
+    ctx.req('FLOW', v[0] == 'int' and p.ms is not None and p.z.entails_eq(v[1], p.ms.cap) and p.untouched(), ctx.body.name,
+            'capacity() must be the const parameter N', p)
+
+
+def h_is_empty(ctx, p):
+    ctx.classes['observed'] += 1
+    E, st, v = p.E, p.st, p.val
+    ok = p.ms is not None and p.untouched()
+    if ok:
+        a = st.fork()
+        a.zone.add_eq(p.ms.len0, 0)
+        b = st.fork()
+        b.zone.add_lt(0, p.ms.len0)
+
+        def truth(s2):
+            if v[0] == 'bool':
+                return v[1]
+            if v[0] == 'boolc':
+                return E.decide(s2, v[1])
+            return None
+        ok = truth(a) is True and truth(b) is False
+    ctx.req('POL', ok, ctx.body.name, 'is_empty() must be true exactly when len() == 0', p)
+
+
+def h_new(ctx, p):
+    ctx.classes['made'] += 1
+    mid = map_in(p.E, p.val)
+    ms = p.st.maps.get(mid) if mid else None
+    ok = ms is not None and ms.len0 is None and p.z.entails_eq(ms.len, 0) and not ms.extras and slots.empty(p.z, ms.extra_rng)
+    ctx.req('OUT', ok, ctx.body.name, 'a new container must be empty (len == 0, no live slot)', p)
+
+
+def h_with_capacity(ctx, p):
+    h_new(ctx, p)
+    t = Term('$arg.' + (ctx.body.locals[1].get('name') or 'arg1'))
+    cap = [ms.cap for ms in p.st.maps.values()]
+    ok = bool(cap) and p.z.entails_eq(t, cap[0])
+    ctx.req('CAP', ok, ctx.body.name, 'with_capacity(c) may return only when c == N', p, props={'C03'})
+
+
 def _mk(fn, *a):
     return lambda ctx, p: fn(ctx, p, *a)
 
@@ -1719,7 +1770,12 @@ HANDLERS.update({
 })
 
 
+CLASSES = {}    # explicit required path classes per root key (consulted before the inference below)
+
+
 def required_classes(key):
+    if key in CLASSES:
+        return CLASSES[key]
     if key[0] in (UNION, SYMDIFF) and key in HANDLERS:
         return {'delegated'}
     if key[0] in (DIFF, DIFFREF, INTER) and key[2] == 'size_hint':
@@ -1750,6 +1806,10 @@ def required_classes(key):
         return {'made'}
     if key[2] == 'clear':
         return {'cleared'}
+    if key[2] in ('len', 'is_empty', 'capacity') and key[0] in (MAP, SET):
+        return {'observed'}
+    if key[2] in ('new', 'default', 'with_capacity') and key[0] in (MAP, SET):
+        return {'made'}
     if key[2] == 'get_disjoint_mut':
         return {'access', 'no-access'}
     if key[2] in ('serialize', 'visit_map', 'visit_seq') and key in HANDLERS:
@@ -1871,9 +1931,28 @@ HANDLERS.update({
     (SYMDIFF, 'Iterator', 'next'): ({'C08'}, h_delegate),
     (SYMDIFF, 'Iterator', 'size_hint'): ({'C08'}, h_delegate),
     (SYMDIFF, 'Iterator', 'fold'): ({'C08'}, h_delegate),
+    (MAP, None, 'len'): ({'C05', 'C01'}, h_len),
+    (SET, None, 'len'): ({'C05', 'C07'}, h_len),
+    (MAP, None, 'is_empty'): ({'C05'}, h_is_empty),
+    (SET, None, 'is_empty'): ({'C05'}, h_is_empty),
+    (MAP, None, 'capacity'): ({'C03', 'C05'}, h_capacity),
+    (SET, None, 'capacity'): ({'C03', 'C05'}, h_capacity),
+    (MAP, None, 'new'): ({'C01', 'C05'}, h_new),
+    (MAP, 'Default', 'default'): ({'C01', 'C05'}, h_new),
+    (SET, None, 'new'): ({'C07', 'C05'}, h_new),
+    (SET, 'Default', 'default'): ({'C07', 'C05'}, h_new),
+    (MAP, None, 'with_capacity'): ({'C03'}, h_with_capacity),
     (MAP, None, 'clear'): ({'C01'}, h_clear),
     (SET, None, 'clear'): ({'C07'}, h_clear),
 })
+
+
+for _k in list(HANDLERS):
+    if _k[0] in (MAP, SET) and _k[1] in (None, 'Default'):
+        if _k[2] in ('len', 'is_empty', 'capacity'):
+            CLASSES[_k] = {'observed'}
+        if _k[2] in ('new', 'default', 'with_capacity'):
+            CLASSES[_k] = {'made'}
 
 
 def check_root(E, body, rr):
